@@ -336,6 +336,76 @@ def vmsa_s2_task(task):
     return out
 
 
+def vmsa_hyp_task(task):
+    """stage 1 of the Hyp-mode (PL2) regime: HTTBR / HTCR.T0SZ / HMAIR / HSCTLR.{M, EE}, long-descriptor tables as in vmsa_ld_task
+    (TTBR0 device); Non-secure, CPSR.M = Hyp; Translate and memory-API events (no fetch)"""
+    rnd = random.Random(task['seed'])
+    proto = S.mk_group(dict(task, cfg=S2CFG))
+    out = []
+    for t in range(task['tables']):
+        g = C.Group.__new__(C.Group)
+        g.__dict__.update(proto.__dict__)
+        g.name = '%s-t%d' % (task['name'], t)
+        g.events, g.meta = [], {}
+        st = proto.fresh()
+        C.randomize(st, rnd, mode=26, thumb=False, pc=0x40)
+        hee = rnd.getrandbits(1) if rnd.random() < 0.3 else 0
+        t0sz = rnd.choice([0, 0, 1, 2, 3, 7])
+        st['sys']['SCR'] = limbs(1 | (rnd.getrandbits(3) << 1))
+        st['sys']['HSCTLR'] = limbs((hee << 25) | (0 if rnd.random() < 0.06 else 1))
+        st['sys']['SCTLR'] = limbs((C.unlimbs(g.base['sys']['SCTLR']) & ~1) | (1 << 22) | rnd.getrandbits(1))
+        st['sys']['HCR'] = limbs(rnd.getrandbits(1))
+        st['sys']['HTCR'] = limbs((1 << 31) | t0sz | (rnd.getrandbits(6) << 8))
+        if t0sz < 2:
+            b0 = 0x8000 + (rnd.randrange(4) << 5 if t0sz == 0 else rnd.randrange(8) << 4)
+        else:
+            b0 = 0x8000 + 0x1000 + (rnd.randrange(1 << (t0sz - 2)) << (14 - t0sz))
+        st['sys']['HTTBR'], st['sys']['HTTBRH'] = limbs(b0), limbs(rnd.randrange(1, 4) if rnd.random() < 0.03 else 0)
+        st['sys']['HMAIR0'] = limbs(sum(rnd.choice(MAIR_MENU) << (8 * i) for i in range(4)))
+        st['sys']['HMAIR1'] = limbs(sum(rnd.choice(MAIR_MENU) << (8 * i) for i in range(4)))
+        st['sys']['MAIR0'], st['sys']['MAIR1'] = limbs(rnd.getrandbits(32)), limbs(rnd.getrandbits(32))
+        d0, d3 = st['mem']['base'][2], st['mem']['base'][3]
+
+        def hdesc(level, tb):
+            d = ld_desc(rnd, level, tb)
+            if (d & 3) in (1, 3) and not (level < 3 and (d & 3) == 3) and rnd.random() < 0.85:
+                d = (d | (1 << 6)) & ~((1 << 53) | (1 << 11))          # AP<1> = 1, PXN = 0, nG = 0: the well-formed PL2 descriptor
+            elif level < 3 and (d & 3) == 3 and rnd.random() < 0.85:
+                d &= ~(1 << 61)                                           # APTable<0> = 0
+            return d
+        tb = {1: 0x8000 + 0x1000, 2: 0xC000}
+        for off in range(0, 0x1000, 8):
+            put64(d0, off, hdesc(1, tb), hee)
+        for k in range(3):
+            for off in range(0, 0x1000, 8):
+                put64(d0, 0x1000 + k * 0x1000 + off, hdesc(2, tb), hee)
+        for off in range(0, 0x4000, 8):
+            put64(d3, off, hdesc(3, {}), hee)
+        C.M.inject(g.arm, dict(st, osys={}, memsz=[]))
+        g.base = C.M.project(g.arm)
+        out.append(g)
+        for _ in range(task['per_table']):
+            r = rnd.random()
+            if r < 0.7:
+                va = rnd.getrandbits(32) if t0sz == 0 or rnd.random() < 0.3 else rnd.getrandbits(32 - t0sz)
+            elif r < 0.85:
+                edge = (1 << (32 - t0sz)) if t0sz else 0
+                va = (edge + rnd.choice([-1, 0, 1, -0x1000])) & 0xFFFFFFFF
+            else:
+                va = rnd.getrandbits(21)
+            if rnd.random() < 0.75:
+                act = {'n': 'Translate', 'addr': limbs(va), 'size': rnd.choice([1, 2, 4]), 'priv': True,
+                       'iswrite': bool(rnd.getrandbits(1)), 'aligned': rnd.random() < 0.85}
+            else:
+                size = rnd.choice([1, 2, 4])
+                op = rnd.choice(['MemAGet', 'MemUGet', 'MemASet', 'MemUSet'])
+                act = {'n': op, 'addr': limbs(va & ~(size - 1)), 'size': size}
+                if op.endswith('Set'):
+                    act['val'] = [rnd.getrandbits(8) for _ in range(size)]
+            g.add(st, act, meta={'va': va, 'hyp': True, 't0sz': t0sz})
+    return out
+
+
 def lpae_scenarios(ctx, scen):
     """spec -> code: every scenario MC_LPAE printed (walk shape x APTable at both levels x AP x AF x T0SZ x priv x R/W)
     is built on a real LPAE-configured instance from the printed registers and descriptor bytes; translate_address() is
@@ -386,6 +456,7 @@ def run(ctx):
     tasks = [(vmsa_task, dict(name='vmsa-%d' % i, seed=ctx.seed + i, tables=6 if q else 120, per_table=40)) for i in range(16)]
     tasks += [(vmsa_ld_task, dict(name='lpae-%d' % i, seed=ctx.seed + 50 + i, tables=3 if q else 60, per_table=50)) for i in range(16)]
     tasks += [(vmsa_s2_task, dict(name='s2-%d' % i, seed=ctx.seed + 80 + i, tables=3 if q else 60, per_table=50)) for i in range(16)]
+    tasks += [(vmsa_hyp_task, dict(name='hyp-%d' % i, seed=ctx.seed + 120 + i, tables=2 if q else 40, per_table=50)) for i in range(8)]
     groups = C.parallel(_dispatch, tasks) + [lp.data()]
     res = C.judge_groups(ctx, groups, clause_filter, rnd=rnd, chunk=1500,
                          site_of=lambda e, v: e['act']['n'] if e['act']['n'] != 'Step' else (e.get('cls') or v['path']),
